@@ -674,6 +674,12 @@ func corpus(out *lib.Out) {
 		runCase(out, next(), "fs", sh, append(append([]string{}, two...), "c:4:", "h:"+kb, "g:"+kb))
 	}
 	runCase(out, next(), "mem", "-", append(append([]string{}, two...), "c:2:"+ka, "w:2:1", "g:"+lib.Hex("streamkey-D")))
+	// an aborted stream leaves nothing behind that a later put could pick up
+	for _, sh := range []string{"r12", "r122", "r133"} {
+		kx, ky := lib.Hex("after-abort-1"), lib.Hex("after-abort-2")
+		runCase(out, next(), "fs", sh, []string{"n:" + lib.Hex("ABORTED-BYTES"), "n:" + lib.Hex("kept"), "o:", "w:0:0", "w:0:0", "c:0:",
+			"p:" + kx + ":1", "g:" + kx, "o:", "w:1:1", "c:1:" + ky, "g:" + ky, "s:" + lib.Hex("after-abort-3") + ":1,1", "g:" + lib.Hex("after-abort-3")})
+	}
 	{
 		// cidlink.Memory: streams under the CIDs of their contents
 		a, b := "AAAA-first-tail", "BBBBBB-second-tail"
